@@ -88,6 +88,9 @@ def run_sequence(ctx, comps, ops, replay):
                 else:
                     real.sol.connect(real.sts[a], p, real.sts[b], q)
                 spec.connect(a, p, b, q)
+            elif k == "setparam":
+                executed.append(op)
+                real.sol.set_param("pq", op[1])
             elif k == "invalid":
                 kind, x, y, z = op[1], op[2], op[3], op[4]
                 links = spec.links
@@ -185,7 +188,9 @@ def gen_ops(rng, ncomp, n):
     ops = [("add", c) for c in range(ncomp) if rng.random() < 0.8]
     for _ in range(n):
         r = rng.random()
-        if r < 0.1:
+        if r < 0.08:
+            ops.append(("setparam", rng.randint(1, 9) / 10))
+        elif r < 0.16:
             ops.append(("add", rng.randrange(ncomp)))
         elif r < 0.55:
             op = ("connect", rng.randrange(ncomp), rng.randrange(3), rng.randrange(ncomp), rng.randrange(3))
